@@ -10,10 +10,16 @@
 //!   range -> `ok pos=<sorted positions>`
 //!   tree  -> `ok split=ok <pre-order node dump>`
 //! The oracle recomputes the property from first principles (own distance code, brute force).
+//!
+//! Calling forms (`lay=` / `qlay=` / `form=` in the request; the model sees the logical values only):
+//!   batch  `c` owned C-order `Array2`, `f` owned Fortran-order `Array2`, `strided` an `ArrayView2` with
+//!          stride 2 on both axes cut out of a larger array, `t` the transposed view of a `(d, n)` array;
+//!   query  `c` contiguous `Array1` view, `strided` a column of a `(d, 2)` matrix;
+//!   build  `leaf` = `from_batch_with_leaf_size`, `default` = `from_batch` (leaf size 2^4).
 use crate::util::*;
 use linfa_nn::distance::{Distance, L1Dist, L2Dist, LInfDist, LpDist};
 use linfa_nn::{BallTreeIndex, BuildError, CommonNearestNeighbour, NearestNeighbour, NnError};
-use ndarray::{Array1, Array2, ArrayView1};
+use ndarray::{s, Array1, Array2, ArrayBase, ArrayView1, Data, Ix2, ShapeBuilder};
 
 trait Sc: linfa::Float {
     const TY: &'static str;
@@ -127,11 +133,77 @@ impl Kind {
 }
 const KINDS: [Kind; 3] = [Kind::Linear, Kind::Kd, Kind::Ball];
 
+/// memory layout / calling form of the batch
+#[derive(Clone, Copy, Debug, PartialEq)]
+enum Lay {
+    C,
+    F,
+    Strided,
+    T,
+}
+impl Lay {
+    fn name(&self) -> &'static str {
+        match self {
+            Lay::C => "c",
+            Lay::F => "f",
+            Lay::Strided => "strided",
+            Lay::T => "t",
+        }
+    }
+}
+
+/// value that no generated coordinate takes: fills the gaps of the strided forms
+const SENTINEL: f64 = 7.0e3 + 0.125;
+
+/// run `f` on the batch in the requested physical form (same logical values)
+macro_rules! with_batch {
+    ($pts:expr, $lay:expr, $F:ty, $b:ident => $body:expr) => {{
+        let pts: &Array2<$F> = $pts;
+        let (n, d) = pts.dim();
+        match $lay {
+            Lay::C => {
+                let $b = pts;
+                $body
+            }
+            Lay::F => {
+                let mut store: Array2<$F> = Array2::zeros((n, d).f());
+                store.assign(pts);
+                let $b = &store;
+                $body
+            }
+            Lay::Strided => {
+                let mut store: Array2<$F> = Array2::from_elem((2 * n + 1, 2 * d + 1), <$F as Sc>::from64(SENTINEL));
+                store.slice_mut(s![1..2 * n + 1;2, 1..2 * d + 1;2]).assign(pts);
+                let view = store.slice(s![1..2 * n + 1;2, 1..2 * d + 1;2]);
+                let $b = &view;
+                $body
+            }
+            Lay::T => {
+                let mut store: Array2<$F> = Array2::zeros((d, n));
+                store.assign(&pts.t());
+                let view = store.t();
+                let $b = &view;
+                $body
+            }
+        }
+    }};
+}
+
 /// first-principles distance (not the reduced one) on widened coordinates
 fn own_dist(met: Met, a: &[f64], b: &[f64]) -> f64 {
     match met {
         Met::L1 => a.iter().zip(b).map(|(x, y)| (x - y).abs()).sum(),
-        Met::L2 => a.iter().zip(b).map(|(x, y)| (x - y) * (x - y)).sum::<f64>().sqrt(),
+        Met::L2 => {
+            // scaled by a power of two (exact) so that neither the squares nor their sum overflow /
+            // underflow; bit-identical to the unscaled formula whenever that one stays in range
+            let m = a.iter().zip(b).map(|(x, y)| (x - y).abs()).fold(0.0, f64::max);
+            if m == 0.0 || !m.is_finite() {
+                m
+            } else {
+                let sc = 2f64.powi(m.log2().floor() as i32);
+                sc * a.iter().zip(b).map(|(x, y)| ((x - y) / sc) * ((x - y) / sc)).sum::<f64>().sqrt()
+            }
+        }
         Met::Linf => a.iter().zip(b).map(|(x, y)| (x - y).abs()).fold(0.0, f64::max),
         Met::Lp(p) => a.iter().zip(b).map(|(x, y)| (x - y).abs().powf(p)).sum::<f64>().powf(1.0 / p),
     }
@@ -148,6 +220,9 @@ struct Setup<F: Sc> {
     /// relative tolerance of the oracle (0 on lattice inputs of an exactly computed metric)
     tol: f64,
     tag: &'static str,
+    lay: Lay,
+    /// `from_batch` (default leaf size) instead of `from_batch_with_leaf_size`
+    default_form: bool,
 }
 
 impl<F: Sc> Setup<F> {
@@ -159,7 +234,7 @@ impl<F: Sc> Setup<F> {
     }
     fn head(&self) -> String {
         let rows: Vec<Vec<F>> = self.pts.rows().into_iter().map(|r| r.to_vec()).collect();
-        format!("ty={} metric={} p={} ncols={} leaf={} pts={}", F::TY, self.met.name(), F::from64(self.met.p()).hx(), self.ncols(), self.leaf, list2(rows.iter().map(|r| r.iter().copied()), |x: F| x.hx()))
+        format!("ty={} metric={} p={} ncols={} leaf={} lay={} form={} pts={}", F::TY, self.met.name(), F::from64(self.met.p()).hx(), self.ncols(), self.leaf, self.lay.name(), if self.default_form { "default" } else { "leaf" }, list2(rows.iter().map(|r| r.iter().copied()), |x: F| x.hx()))
     }
     fn buildable(&self) -> bool {
         self.leaf >= 1 && self.ncols() >= 1
@@ -176,10 +251,12 @@ impl<F: Sc> Setup<F> {
         if !self.buildable() {
             return None;
         }
-        let nodes = with_metric!(self.met, F, d => {
-            let ix = BallTreeIndex::new(&self.pts, self.leaf, d).ok()?;
+        // a build that fails here although `buildable()` is reported by the ball query cases
+        // (`no_error_on_valid`) and by the coverage floor on `op:tree`
+        let nodes = with_batch!(&self.pts, self.lay, F, b => with_metric!(self.met, F, d => {
+            let ix = BallTreeIndex::new(b, self.leaf, d).ok()?;
             linfa_nn::verif_hooks_c07::dump(&ix)
-        });
+        }));
         // recursive descent over the pre-order list
         fn go<F: Sc>(nodes: &[linfa_nn::verif_hooks_c07::NodeDump<F>], at: &mut usize, pts: &Array2<F>, script: &mut Vec<String>, balls: &mut Vec<(Vec<f64>, f64, Vec<usize>)>) -> Vec<usize> {
             let me = *at;
@@ -240,21 +317,24 @@ enum Q<F> {
 
 type Answer = Result<Vec<(Vec<u64>, Vec<f64>, usize)>, String>; // (bits as u64, widened coords, pos)
 
-/// run the real index; returns `Err("err …")` for reported errors
-fn run_real<F: Sc>(s: &Setup<F>, kind: Kind, q: &[F], what: Q<F>) -> (Answer, Vec<F>, Vec<F>, F) {
+/// run the real index on one physical form of the batch
+fn run_on<F: Sc, DT: Data<Elem = F>>(batch: &ArrayBase<DT, Ix2>, s: &Setup<F>, kind: Kind, q: &[F], qstrided: bool, what: Q<F>) -> (Answer, Vec<F>, Vec<F>, F) {
     // returns answer, reduced distances of the returned points, reduced distances of all rows, toR(r)
     let qa = Array1::from(q.to_vec());
+    let qm: Array2<F> = Array2::from_shape_fn((q.len(), 2), |(i, j)| if j == 1 { q[i] } else { F::from64(SENTINEL) });
+    let qv: ArrayView1<F> = if qstrided { qm.column(1) } else { qa.view() };
     with_metric!(s.met, F, d => {
         let all_rd: Vec<F> = if q.len() == s.ncols() && s.ncols() > 0 { s.pts.rows().into_iter().map(|r| d.rdistance(qa.view(), r)).collect() } else { vec![] };
         let rr = match what { Q::Range(r) => d.dist_to_rdist(r), _ => F::zero() };
-        let ix = match kind.builder().from_batch_with_leaf_size(&s.pts, s.leaf, d.clone()) {
+        let built = if s.default_form { kind.builder().from_batch(batch, d.clone()) } else { kind.builder().from_batch_with_leaf_size(batch, s.leaf, d.clone()) };
+        let ix = match built {
             Ok(ix) => ix,
             Err(BuildError::EmptyLeaf) => return (Err("err EmptyLeaf".into()), vec![], all_rd, rr),
             Err(BuildError::ZeroDimension) => return (Err("err ZeroDimension".into()), vec![], all_rd, rr),
         };
         let res = match what {
-            Q::Knn(k) => ix.k_nearest(qa.view(), k),
-            Q::Range(r) => ix.within_range(qa.view(), r),
+            Q::Knn(k) => ix.k_nearest(qv, k),
+            Q::Range(r) => ix.within_range(qv, r),
         };
         match res {
             Err(NnError::WrongDimension) => (Err("err WrongDimension".into()), vec![], all_rd, rr),
@@ -267,11 +347,17 @@ fn run_real<F: Sc>(s: &Setup<F>, kind: Kind, q: &[F], what: Q<F>) -> (Answer, Ve
     })
 }
 
-fn query_case<F: Sc>(em: &mut Em, s: &Setup<F>, kind: Kind, q: &[F], what: Q<F>, script: &Option<String>) {
+/// run the real index; returns `Err("err …")` for reported errors
+fn run_real<F: Sc>(s: &Setup<F>, kind: Kind, q: &[F], qstrided: bool, what: Q<F>) -> (Answer, Vec<F>, Vec<F>, F) {
+    with_batch!(&s.pts, s.lay, F, b => run_on(b, s, kind, q, qstrided, what))
+}
+
+fn query_case<F: Sc>(em: &mut Em, s: &Setup<F>, kind: Kind, q: &[F], qstrided: bool, what: Q<F>, script: &Option<String>) {
     let n = s.n();
+    let ql = if qstrided { "strided" } else { "c" };
     let mut op = match what {
-        Q::Knn(k) => format!("knn {} kind={} q={} k={}", s.head(), kind.name(), list(q.iter().copied(), |x: F| x.hx()), k),
-        Q::Range(r) => format!("range {} kind={} q={} r={}", s.head(), kind.name(), list(q.iter().copied(), |x: F| x.hx()), r.hx()),
+        Q::Knn(k) => format!("knn {} kind={} qlay={} q={} k={}", s.head(), kind.name(), ql, list(q.iter().copied(), |x: F| x.hx()), k),
+        Q::Range(r) => format!("range {} kind={} qlay={} q={} r={}", s.head(), kind.name(), ql, list(q.iter().copied(), |x: F| x.hx()), r.hx()),
     };
     if kind == Kind::Ball {
         if let Some(sc) = script {
@@ -280,8 +366,21 @@ fn query_case<F: Sc>(em: &mut Em, s: &Setup<F>, kind: Kind, q: &[F], what: Q<F>,
     }
     let well_formed = s.buildable() && q.len() == s.ncols();
     let opn = if matches!(what, Q::Knn(_)) { "knn" } else { "range" };
+    let lay_key = format!("{}:{}", s.lay.name(), ql);
+    // the defects present (several may coincide); the statement asks for *an* error, so any of the
+    // kinds that names a defect actually present is accepted (one defect: exactly its kind)
+    let mut applicable: Vec<&'static str> = vec![];
+    if s.leaf == 0 && !s.default_form {
+        applicable.push("err EmptyLeaf");
+    }
+    if s.ncols() == 0 {
+        applicable.push("err ZeroDimension");
+    }
+    if q.len() != s.ncols() {
+        applicable.push("err WrongDimension");
+    }
     let class = if !well_formed {
-        format!("malformed:{}:{}", kind.name(), if s.leaf == 0 { "leaf=0" } else if s.ncols() == 0 { "ncols=0" } else { "qdim" })
+        format!("malformed:{}:{}", kind.name(), applicable.iter().map(|e| match *e { "err EmptyLeaf" => "leaf=0", "err ZeroDimension" => "ncols=0", _ => "qdim" }).collect::<Vec<_>>().join("+"))
     } else {
         match what {
             Q::Knn(0) if n > 0 => format!("knn:{}:k=0", kind.name()),
@@ -296,14 +395,19 @@ fn query_case<F: Sc>(em: &mut Em, s: &Setup<F>, kind: Kind, q: &[F], what: Q<F>,
         em.count("malformed");
     }
     let cls = class.clone();
+    let before = em.outs.len();
     em.case_valid(op, &class, move |ctx| {
-        let (ans, rds, all_rd, rr) = run_real(s, kind, q, what);
+        let (ans, rds, all_rd, rr) = run_real(s, kind, q, qstrided, what);
         let out = match ans {
             Err(e) => {
                 ctx.require(!well_formed, "no_error_on_valid", &cls, || format!("well-formed build/query answered {}", e));
                 if !well_formed {
-                    let want = if s.leaf == 0 { "err EmptyLeaf" } else if s.ncols() == 0 { "err ZeroDimension" } else { "err WrongDimension" };
-                    ctx.require(e == want, "errors", &cls, || format!("malformed input reported as `{}`, expected `{}`", e, want));
+                    ctx.require(applicable.contains(&e.as_str()), "errors", &cls, || format!("malformed input reported as `{}`, the defects present are {:?}", e, applicable));
+                    if applicable.len() > 1 {
+                        // which of several coinciding defects is named is not promised by the statement
+                        // (each kind has its own order of guards): not compared with the model
+                        return "err multiple".to_string();
+                    }
                 }
                 return e;
             }
@@ -374,23 +478,33 @@ fn query_case<F: Sc>(em: &mut Em, s: &Setup<F>, kind: Kind, q: &[F], what: Q<F>,
             }
         }
     });
+    // success-like outcomes, for the coverage floors (conf "floors")
+    if well_formed && em.outs.len() > before && em.outs[before].starts_with("ok") {
+        em.count(&format!("ok:{}:{}", opn, kind.name()));
+        em.count(&format!("ok:lay:{}:{}", lay_key, kind.name()));
+        em.count(&format!("ok:ty:{}:{}", F::TY, s.met.name()));
+        if s.default_form {
+            em.count(&format!("ok:form:default:{}", kind.name()));
+        }
+    }
 }
 
 /// the three kinds answer the same query interchangeably (oracle only)
-fn agree_case<F: Sc>(em: &mut Em, s: &Setup<F>, q: &[F], what: Q<F>) {
+fn agree_case<F: Sc>(em: &mut Em, s: &Setup<F>, q: &[F], qstrided: bool, what: Q<F>) {
     if !(s.buildable() && q.len() == s.ncols()) {
         return;
     }
+    let ql = if qstrided { "strided" } else { "c" };
     let op = match what {
-        Q::Knn(k) => format!("#agree knn {} q={} k={}", s.head(), list(q.iter().copied(), |x: F| x.hx()), k),
-        Q::Range(r) => format!("#agree range {} q={} r={}", s.head(), list(q.iter().copied(), |x: F| x.hx()), r.hx()),
+        Q::Knn(k) => format!("#agree knn {} qlay={} q={} k={}", s.head(), ql, list(q.iter().copied(), |x: F| x.hx()), k),
+        Q::Range(r) => format!("#agree range {} qlay={} q={} r={}", s.head(), ql, list(q.iter().copied(), |x: F| x.hx()), r.hx()),
     };
     em.case(op, move |ctx| {
         // per kind: canonical string, sorted positions, widened reduced distances of the answer
         let mut canon: Vec<(Kind, String, Vec<usize>, Vec<f64>)> = vec![];
         let mut border = false;
         for kind in KINDS {
-            let r = std::panic::catch_unwind(std::panic::AssertUnwindSafe(|| run_real(s, kind, q, what)));
+            let r = std::panic::catch_unwind(std::panic::AssertUnwindSafe(|| run_real(s, kind, q, qstrided, what)));
             let c = match r {
                 Err(_) => ("panic".to_string(), vec![], vec![]),
                 Ok((Err(e), ..)) => (e, vec![], vec![]),
@@ -409,9 +523,14 @@ fn agree_case<F: Sc>(em: &mut Em, s: &Setup<F>, q: &[F], what: Q<F>) {
             };
             canon.push((kind, c.0, c.1, c.2));
         }
-        // a difference that hangs on one rounding (a point within a few ulps of the radius, a k-th
-        // distance that differs in the last bits) is classed `ulp`: the pruning bound of a tree is
-        // computed in floating point
+        // Open finding C07-balltree-ulp-pruning: the pruning bound of the ball tree is computed in
+        // floating point and can exceed the true reduced distance by a rounding, so the ball tree
+        // may MISS points within a few ulps of the radius.  Only that shape is classed `ulp`: the
+        // kind is the ball tree, it answered (no error, no panic), its answer is a subset of the
+        // linear one (never an extra point), and every missing row lies within 4e-15 (f64) / 1e-6
+        // (f32) relative of the radius (k nearest: same count, distances equal to that precision; the
+        // bound `distance(q, c) - radius` cancels, so its error is a few ulps of the larger operand,
+        // not of the difference).  Anything else is `interior` / `k>0`.
         let band = if F::TY == "f32" { 1e-6 } else { 4e-15 };
         let qw: Vec<f64> = q.iter().map(|x| x.wide()).collect();
         let rows: Vec<Vec<f64>> = s.pts.rows().into_iter().map(wide_row).collect();
@@ -420,20 +539,20 @@ fn agree_case<F: Sc>(em: &mut Em, s: &Setup<F>, q: &[F], what: Q<F>) {
             if *c == base {
                 continue;
             }
+            let answered = c.starts_with("pos=") || c.starts_with("n=");
             let (clause, class) = match what {
                 Q::Knn(k) => {
                     let near = dd.len() == base_d.len() && dd.iter().zip(&base_d).all(|(a, b)| (a - b).abs() <= band * a.abs().max(b.abs()));
-                    ("indices_agree", format!("knn:{}:{}", kind.name(), if k == 0 { "k=0" } else if near && !c.starts_with('p') && !c.starts_with('e') { "ulp" } else { "k>0" }))
+                    ("indices_agree", format!("knn:{}:{}", kind.name(), if k == 0 { "k=0" } else if near && answered && *kind == Kind::Ball { "ulp" } else { "k>0" }))
                 }
                 Q::Range(r) => {
                     let rw = r.wide();
-                    let differing: Vec<usize> = (0..rows.len()).filter(|i| pos.contains(i) != base_pos.contains(i)).collect();
-                    let near = !differing.is_empty() && differing.iter().all(|i| (own_dist(s.met, &qw, &rows[*i]) - rw).abs() <= band * rw.abs());
-                    if border && !near {
+                    let missing: Vec<usize> = (0..rows.len()).filter(|i| !pos.contains(i) && base_pos.contains(i)).collect();
+                    let extra = (0..rows.len()).any(|i| pos.contains(&i) && !base_pos.contains(&i));
+                    let near = !missing.is_empty() && !extra && missing.iter().all(|i| (own_dist(s.met, &qw, &rows[*i]) - rw).abs() <= band * rw.abs());
+                    if border {
                         ("indices_agree_on_border", format!("range:{}:border", kind.name()))
-                    } else if border {
-                        ("indices_agree_on_border", format!("range:{}:border", kind.name()))
-                    } else if near && c.starts_with("pos=") {
+                    } else if near && answered && *kind == Kind::Ball {
                         ("indices_agree", format!("range:{}:ulp", kind.name()))
                     } else {
                         ("indices_agree", format!("range:{}:interior", kind.name()))
@@ -473,9 +592,16 @@ fn tree_case<F: Sc>(em: &mut Em, s: &Setup<F>) -> Option<String> {
 
 // ------------------------------------------------------------------ generators
 
-fn gen_cloud(rng: &mut Rng, thorough: bool) -> (Vec<Vec<f64>>, usize, bool, &'static str) {
+/// magnitude classes: `finite` streams stay inside the range where squares / p-th powers neither
+/// overflow nor underflow; `edge` streams put the SQUARE of a coordinate difference at the very end of
+/// the carrier's range (still finite and normal, so every clause of the statement applies)
+fn pow2(e: i32) -> f64 {
+    2f64.powi(e)
+}
+
+fn gen_cloud(rng: &mut Rng, thorough: bool, is32: bool) -> (Vec<Vec<f64>>, usize, bool, &'static str) {
     // returns rows, ncols, lattice?, tag
-    let big = thorough && rng.chance(1, 6);
+    let big = if thorough { rng.chance(1, 6) } else { rng.chance(1, 14) };
     let d = match rng.below(10) {
         0..=2 => 1,
         3..=5 => 2,
@@ -488,9 +614,9 @@ fn gen_cloud(rng: &mut Rng, thorough: bool) -> (Vec<Vec<f64>>, usize, bool, &'st
         1 => 1,
         2 => 2,
         3..=8 => 3 + rng.below(if big { 60 } else { 14 }),
-        _ => 10 + rng.below(if big { 120 } else { 22 }),
+        _ => 10 + rng.below(if big { if thorough { 240 } else { 150 } } else { 22 }),
     };
-    let style = rng.below(10);
+    let style = rng.below(12);
     let mut rows = vec![];
     let (lattice, tag): (bool, &'static str) = match style {
         0 => {
@@ -547,6 +673,25 @@ fn gen_cloud(rng: &mut Rng, thorough: bool) -> (Vec<Vec<f64>>, usize, bool, &'st
             }
             (false, "clustered")
         }
+        9 => {
+            // huge: an integer lattice scaled by a power of two so that squared differences sit just
+            // below the overflow threshold of the carrier (f32: 2^127, f64: 2^1023); sums of up to 16
+            // such squares of lattice width 3 stay finite: (6 * 2^e)^2 * 16 = 2^(2e + 9.2)
+            let e = if is32 { 55 + rng.below(4) as i32 } else { 500 + rng.below(6) as i32 };
+            for _ in 0..n {
+                rows.push((0..d).map(|_| rng.range(-3, 3) as f64 * pow2(e)).collect());
+            }
+            (true, "huge")
+        }
+        10 => {
+            // tiny: the same lattice scaled down so that squared differences are just above the
+            // smallest NORMAL number (f32: 2^-126, f64: 2^-1022)
+            let e = if is32 { -62 + rng.below(3) as i32 } else { -510 + rng.below(4) as i32 };
+            for _ in 0..n {
+                rows.push((0..d).map(|_| rng.range(-3, 3) as f64 * pow2(e)).collect());
+            }
+            (true, "tiny")
+        }
         _ => {
             // uniform cloud on a random scale
             let scale = 10f64.powi(rng.range(-3, 3) as i32);
@@ -560,53 +705,85 @@ fn gen_cloud(rng: &mut Rng, thorough: bool) -> (Vec<Vec<f64>>, usize, bool, &'st
     (rows, d, lattice, tag)
 }
 
-fn gen_metric(rng: &mut Rng, lattice: bool) -> Met {
+fn gen_metric(rng: &mut Rng, lattice: bool, tag: &str) -> Met {
     match rng.below(8) {
         0 | 1 => Met::L1,
         2 | 3 | 4 => Met::L2,
         5 => Met::Linf,
-        _ => {
-            if lattice || rng.coin() {
-                Met::Lp(*rng.pick(&[1.0, 2.0, 3.0, 4.0]))
-            } else {
-                Met::Lp(*rng.pick(&[1.5, 2.5, 3.25]))
-            }
-        }
+        _ if tag == "huge" || tag == "tiny" => Met::L2, // p-th powers leave the range; L2 is the edge case aimed at
+        _ => match rng.below(3) {
+            0 => Met::Lp(*rng.pick(&[1.0, 2.0, 3.0, 4.0])),
+            1 if !lattice => Met::Lp(*rng.pick(&[1.5, 2.5, 3.25])),
+            // any exponent >= 1 on the grid of eighths up to 6 (below 1 the triangle inequality fails:
+            // not a metric, outside the statement)
+            _ => Met::Lp(1.0 + rng.below(41) as f64 / 8.0),
+        },
     }
 }
 
+/// malformed: bit 0 leaf size 0, bit 1 zero columns, bit 2 wrong query dimension (may coincide)
 fn scenario<F: Sc>(em: &mut Em, rng: &mut Rng, rows: &[Vec<f64>], d: usize, lattice: bool, tag: &'static str, met: Met, malformed: u8) {
     let n = rows.len();
-    let ncols = if malformed == 2 { 0 } else { d };
+    let ncols = if malformed & 2 != 0 { 0 } else { d };
     let pts: Array2<F> = Array2::from_shape_fn((n, ncols), |(i, j)| F::from64(rows[i][j]));
-    let leaf = if malformed == 1 {
+    let mut default_form = false;
+    let leaf = if malformed & 1 != 0 {
         0
     } else {
-        match rng.below(6) {
+        match rng.below(7) {
             0 => 1,
             1 => 2,
             2 => 1 + rng.below(4),
             3 => 1 + rng.below(n + 2),
             4 => 16,
+            5 => {
+                default_form = true;
+                16
+            }
             _ => 1 + rng.below(3),
         }
     };
-    // L1 / Linf on lattice points are computed exactly; everything else goes through sqrt / pow /
-    // rounding sums, so the oracle leaves a relative band around the radius / between distances free
+    let lay = match rng.below(20) {
+        0..=9 => Lay::C,
+        10..=12 => Lay::F,
+        13..=16 => Lay::Strided,
+        _ => Lay::T,
+    };
+    // L1 / Linf on lattice points are computed exactly (tolerance 0).  L2 and the generic clouds go
+    // through rounding sums / sqrt: the oracle (f64 on the widened coordinates) leaves free only what
+    // the carrier's own rounding of the reduced distance can move: (d + 4) ulps of the carrier.  Lp
+    // goes through libm pow: 1e-9 / 1e-5.
     let exact = lattice && matches!(met, Met::L1 | Met::Linf);
-    let tol = if exact { 0.0 } else if F::TY == "f32" { 1e-5 } else if lattice { 1e-12 } else { 1e-9 };
-    let s = Setup { pts, met, leaf, tol, tag };
+    let eps = if F::TY == "f32" { 1.2e-7 } else { 2.3e-16 };
+    let tol = if exact {
+        0.0
+    } else if met.approx() {
+        if F::TY == "f32" { 1e-5 } else { 1e-9 }
+    } else {
+        (ncols as f64 + 4.0) * eps
+    };
+    let s = Setup { pts, met, leaf, tol, tag, lay, default_form };
+    em.count(&format!("lay:{}", lay.name()));
+    if n > 36 {
+        em.count("n>36");
+    }
     let script = tree_case(em, &s);
     let nq = if em.thorough() { 3 } else { 2 };
+    // scale of the cloud (query points of the huge / tiny streams live on the same scale)
+    let unit: f64 = match tag {
+        "huge" | "tiny" => rows.iter().flatten().map(|x| x.abs()).filter(|x| *x > 0.0).fold(f64::INFINITY, f64::min).min(1e300).max(1e-300),
+        _ => 1.0,
+    };
+    let unit = if unit == 1e300 { 1.0 } else { unit };
     for _ in 0..nq {
         // query point: a stored point, a lattice point, or a point between
         let mut q: Vec<F> = match rng.below(4) {
             0 if n > 0 && ncols > 0 => s.pts.row(rng.below(n)).to_vec(),
-            1 => (0..d).map(|_| F::from64(rng.range(-4, 4) as f64)).collect(),
-            2 => (0..d).map(|_| F::from64(rng.range(-8, 8) as f64 / 2.0)).collect(),
+            1 => (0..d).map(|_| F::from64(rng.range(-4, 4) as f64 * unit)).collect(),
+            2 => (0..d).map(|_| F::from64(rng.range(-8, 8) as f64 / 2.0 * unit)).collect(),
             _ => {
                 if lattice {
-                    (0..d).map(|_| F::from64(rng.range(-6, 6) as f64 / 4.0)).collect()
+                    (0..d).map(|_| F::from64(rng.range(-6, 6) as f64 / 4.0 * unit)).collect()
                 } else if n > 0 && ncols > 0 {
                     let base = s.pts.row(rng.below(n)).to_vec();
                     base.iter().map(|x| F::from64(x.wide() + (rng.unit() - 0.5) * 0.1)).collect()
@@ -618,7 +795,7 @@ fn scenario<F: Sc>(em: &mut Em, rng: &mut Rng, rows: &[Vec<f64>], d: usize, latt
         if tag == "rings" && rng.coin() {
             q = vec![F::zero(); d];
         }
-        if malformed == 3 {
+        if malformed & 4 != 0 {
             match rng.below(3) {
                 0 => q.clear(),
                 1 => {
@@ -627,9 +804,10 @@ fn scenario<F: Sc>(em: &mut Em, rng: &mut Rng, rows: &[Vec<f64>], d: usize, latt
                 _ => q.push(F::one()),
             }
         }
-        if malformed == 2 && rng.coin() {
+        if malformed & 2 != 0 && malformed & 4 == 0 && rng.coin() {
             q.clear();
         }
+        let qstrided = rng.chance(1, 3);
         // k values: 0, 1, around n, beyond n
         let mut ks = vec![rng.below(n + 3)];
         match rng.below(5) {
@@ -642,7 +820,7 @@ fn scenario<F: Sc>(em: &mut Em, rng: &mut Rng, rows: &[Vec<f64>], d: usize, latt
         if em.thorough() {
             ks.push(rng.below(n + 3));
         }
-        // radii: 0, on / one ulp around inter-point distances, beyond the diameter
+        // radii: 0, on / one ulp around inter-point distances, beyond the diameter, +inf
         let well = s.buildable() && q.len() == s.ncols();
         let dists: Vec<f64> = if well && n > 0 {
             let qw: Vec<f64> = q.iter().map(|x| x.wide()).collect();
@@ -653,7 +831,7 @@ fn scenario<F: Sc>(em: &mut Em, rng: &mut Rng, rows: &[Vec<f64>], d: usize, latt
         let mut rs: Vec<F> = vec![];
         for _ in 0..(if em.thorough() { 3 } else { 2 }) {
             let base = *rng.pick(&dists);
-            let r = match rng.below(8) {
+            let r = match rng.below(9) {
                 0 => 0.0,
                 1 | 2 | 3 => base,
                 4 => {
@@ -662,43 +840,164 @@ fn scenario<F: Sc>(em: &mut Em, rng: &mut Rng, rows: &[Vec<f64>], d: usize, latt
                     let y = if rng.coin() { x + x.abs() * F::epsilon() } else { x - x.abs() * F::epsilon() };
                     y.wide().max(0.0)
                 }
-                5 => dists.iter().cloned().fold(0.0, f64::max) * 2.0 + 1.0,
+                5 => dists.iter().cloned().fold(0.0, f64::max) * 2.0 + unit,
                 6 => base * (0.5 + rng.unit()),
-                _ => (rng.range(0, 12) as f64) / 2.0,
+                7 => f64::INFINITY, // OPTICS' default tolerance: every stored point is inside
+                _ => (rng.range(0, 12) as f64) / 2.0 * unit,
             };
+            // the huge stream: keep the radius where its square is finite in the carrier
+            let r = if tag == "huge" && r.is_finite() { r.min(unit * 24.0) } else { r };
             rs.push(F::from64(r));
         }
         for kind in KINDS {
             for k in &ks {
-                query_case(em, &s, kind, &q, Q::Knn(*k), &script);
+                query_case(em, &s, kind, &q, qstrided, Q::Knn(*k), &script);
             }
             for r in &rs {
-                query_case(em, &s, kind, &q, Q::Range(*r), &script);
+                if r.wide().is_infinite() {
+                    em.count("radius:inf");
+                }
+                query_case(em, &s, kind, &q, qstrided, Q::Range(*r), &script);
             }
         }
         for k in &ks {
-            agree_case(em, &s, &q, Q::Knn(*k));
+            agree_case(em, &s, &q, qstrided, Q::Knn(*k));
         }
         for r in &rs {
-            agree_case(em, &s, &q, Q::Range(*r));
+            agree_case(em, &s, &q, qstrided, Q::Range(*r));
         }
     }
 }
 
-/// fixed witnesses of the two defects the design expected (run first on every run)
+/// Open finding C07-l2-squared-distance-range (oracle only).  `L2Dist` compares SQUARED distances
+/// (`rdistance`, `dist_to_rdist = d^2`); for finite coordinates whose differences are beyond
+/// 2^64 (f32) / 2^512 (f64) the squares are +inf, below 2^-75 / 2^-537 they are 0, although every
+/// distance and the radius are representable.  Then all reduced distances tie, `rdist < r^2` is
+/// `inf < inf` or `0 < 0`, and every kind misses points strictly inside the radius / returns
+/// arbitrary "nearest" points; the ball tree returns no point at all for k nearest (`inf < inf`
+/// against `max_radius = inf`).  The stream consists of such inputs only; every failure of the
+/// statement on it is reported under the one clause `reduced_distance_in_range`.
+fn edge_case<F: Sc>(em: &mut Em, s: &Setup<F>, kind: Kind, q: &[F], what: Q<F>) {
+    let op = match what {
+        Q::Knn(k) => format!("#edge knn {} kind={} q={} k={}", s.head(), kind.name(), list(q.iter().copied(), |x: F| x.hx()), k),
+        Q::Range(r) => format!("#edge range {} kind={} q={} r={}", s.head(), kind.name(), list(q.iter().copied(), |x: F| x.hx()), r.hx()),
+    };
+    em.count(&format!("edge:{}", s.tag));
+    em.case(op, move |ctx| {
+        let cls = format!("l2:{}:{}", s.tag, kind.name());
+        let n = s.n();
+        let r = std::panic::catch_unwind(std::panic::AssertUnwindSafe(|| run_real(s, kind, q, false, what)));
+        let out = match r {
+            Ok((Ok(out), ..)) => out,
+            Ok((Err(e), ..)) => {
+                ctx.fail("no_error_on_valid", &cls, format!("well-formed build/query answered {}", e));
+                return String::new();
+            }
+            Err(_) => {
+                ctx.fail("no_panic", &cls, "panic on finite coordinates".to_string());
+                return String::new();
+            }
+        };
+        let qw: Vec<f64> = q.iter().map(|x| x.wide()).collect();
+        let own_all: Vec<f64> = s.pts.rows().into_iter().map(|r| own_dist(s.met, &qw, &wide_row(r))).collect();
+        let pos: Vec<usize> = out.iter().map(|(_, _, p)| *p).collect();
+        if pos.iter().any(|p| *p >= n) {
+            ctx.fail("coords_position", &cls, format!("position out of range in {:?}", pos));
+            return String::new();
+        }
+        let close = |a: f64, b: f64| (a - b).abs() <= s.tol * a.abs().max(b.abs());
+        let mut bad: Vec<String> = vec![];
+        match what {
+            Q::Knn(k) => {
+                if out.len() != k.min(n) {
+                    bad.push(format!("{} points returned, min(k,n) = {}", out.len(), k.min(n)));
+                }
+                let mut want = own_all.clone();
+                want.sort_by(|a, b| a.partial_cmp(b).unwrap());
+                want.truncate(k.min(n));
+                let got: Vec<f64> = pos.iter().map(|p| own_all[*p]).collect();
+                if !got.windows(2).all(|w| w[0] <= w[1] || close(w[0], w[1])) {
+                    bad.push(format!("distances not ascending: {:?}", got));
+                }
+                let mut gs = got.clone();
+                gs.sort_by(|a, b| a.partial_cmp(b).unwrap());
+                if gs.len() == want.len() && !gs.iter().zip(&want).all(|(a, b)| a == b || close(*a, *b)) {
+                    bad.push(format!("returned distances {:?}, true k nearest {:?}", gs, want));
+                }
+            }
+            Q::Range(r) => {
+                let rw = r.wide();
+                for i in 0..n {
+                    let d = own_all[i];
+                    if d < rw && !close(d, rw) && !pos.contains(&i) {
+                        bad.push(format!("row {} at distance {:e} < radius {:e} missing", i, d, rw));
+                    }
+                    if d > rw && !close(d, rw) && pos.contains(&i) {
+                        bad.push(format!("row {} at distance {:e} > radius {:e} returned", i, d, rw));
+                    }
+                }
+            }
+        }
+        if !bad.is_empty() {
+            ctx.fail("reduced_distance_in_range", &cls, bad.join("; "));
+        }
+        String::new()
+    });
+}
+
+/// inputs of `edge_case`: a small integer lattice scaled by 2^e with e beyond the range in which the
+/// square of a coordinate difference is a finite normal number
+fn edge_stream(em: &mut Em, rng: &mut Rng) {
+    fn go<F: Sc>(em: &mut Em, rng: &mut Rng, e: i32, tag: &'static str) {
+        let d = 1 + rng.below(3);
+        let n = 2 + rng.below(7);
+        let sc = pow2(e);
+        let pts: Array2<F> = Array2::from_shape_fn((n, d), |_| F::from64(rng.range(-3, 3) as f64 * sc));
+        let s = Setup { pts, met: Met::L2, leaf: 1 + rng.below(3), tol: 1e-6, tag, lay: Lay::C, default_form: false };
+        let q: Vec<F> = (0..d).map(|_| F::from64(rng.range(-4, 4) as f64 * sc)).collect();
+        let k = 1 + rng.below(n);
+        let r = F::from64((0.5 + rng.below(6) as f64) * sc);
+        for kind in KINDS {
+            edge_case(em, &s, kind, &q, Q::Knn(k));
+            edge_case(em, &s, kind, &q, Q::Range(r));
+        }
+    }
+    // the witness of the finding: 1-d points 1,2,3 (x 2^64, f32), query 0, radius 1.5 x 2^64
+    {
+        let sc = pow2(64);
+        let pts: Array2<f32> = Array2::from_shape_vec((3, 1), vec![sc as f32, (2.0 * sc) as f32, (3.0 * sc) as f32]).unwrap();
+        let s = Setup { pts, met: Met::L2, leaf: 2, tol: 1e-6, tag: "overflow", lay: Lay::C, default_form: false };
+        for kind in KINDS {
+            edge_case(em, &s, kind, &[0.0f32], Q::Range((1.5 * sc) as f32));
+            edge_case(em, &s, kind, &[0.0f32], Q::Knn(1));
+        }
+    }
+    let rounds = if em.thorough() { 40 } else { 8 };
+    for _ in 0..rounds {
+        let j = rng.below(8) as i32;
+        match rng.below(4) {
+            0 => go::<f32>(em, rng, 64 + j, "overflow"),
+            1 => go::<f64>(em, rng, 512 + j, "overflow"),
+            2 => go::<f32>(em, rng, -76 - j, "underflow"),
+            _ => go::<f64>(em, rng, -540 - j, "underflow"),
+        }
+    }
+}
+
+/// fixed witnesses of the repaired defects (run first on every run)
 fn corpus(em: &mut Em) {
     // ball tree, k = 0 on a non-empty index
     let pts: Array2<f64> = Array2::from_shape_vec((3, 2), vec![0.0, 0.0, 1.0, 0.0, 0.0, 2.0]).unwrap();
-    let s = Setup { pts, met: Met::L2, leaf: 2, tol: 0.0, tag: "corpus" };
+    let s = Setup { pts, met: Met::L2, leaf: 2, tol: 0.0, tag: "corpus", lay: Lay::C, default_form: false };
     let script = tree_case(em, &s);
     for kind in KINDS {
-        query_case(em, &s, kind, &[0.0, 0.0], Q::Knn(0), &script);
+        query_case(em, &s, kind, &[0.0, 0.0], false, Q::Knn(0), &script);
     }
-    agree_case(em, &s, &[0.0, 0.0], Q::Knn(0));
+    agree_case(em, &s, &[0.0, 0.0], false, Q::Knn(0));
     // (3,4) at radius 5 from the origin
     let pts: Array2<f64> = Array2::from_shape_vec((3, 2), vec![3.0, 4.0, 1.0, 1.0, 6.0, 8.0]).unwrap();
     for met in [Met::L2, Met::L1, Met::Linf] {
-        let s = Setup { pts: pts.clone(), met, leaf: 1, tol: 0.0, tag: "corpus" };
+        let s = Setup { pts: pts.clone(), met, leaf: 1, tol: 0.0, tag: "corpus", lay: Lay::C, default_form: false };
         let script = tree_case(em, &s);
         let r = match met {
             Met::L2 => 5.0,
@@ -706,23 +1005,43 @@ fn corpus(em: &mut Em) {
             _ => 4.0,
         };
         for kind in KINDS {
-            query_case(em, &s, kind, &[0.0, 0.0], Q::Range(r), &script);
+            query_case(em, &s, kind, &[0.0, 0.0], false, Q::Range(r), &script);
         }
-        agree_case(em, &s, &[0.0, 0.0], Q::Range(r));
+        agree_case(em, &s, &[0.0, 0.0], false, Q::Range(r));
+    }
+    // non-contiguous batch rows / query (Fortran order, strided and transposed views): the k-d tree
+    // used to panic on `to_slice().expect("views should be contiguous")`
+    let pts: Array2<f64> = Array2::from_shape_vec((4, 2), vec![0.0, 0.0, 3.0, 4.0, 1.0, 1.0, -2.0, 0.5]).unwrap();
+    for (lay, qstrided) in [(Lay::F, false), (Lay::Strided, false), (Lay::T, true), (Lay::C, true)] {
+        let s = Setup { pts: pts.clone(), met: Met::L2, leaf: 1, tol: 1e-12, tag: "corpus", lay, default_form: false };
+        let script = tree_case(em, &s);
+        for kind in KINDS {
+            query_case(em, &s, kind, &[0.5, 0.25], qstrided, Q::Knn(2), &script);
+            query_case(em, &s, kind, &[0.5, 0.25], qstrided, Q::Range(2.0), &script);
+        }
+        agree_case(em, &s, &[0.5, 0.25], qstrided, Q::Knn(2));
+        agree_case(em, &s, &[0.5, 0.25], qstrided, Q::Range(2.0));
     }
 }
 
 pub fn run(em: &mut Em, rng: &mut Rng) {
     corpus(em);
-    let clouds = if em.thorough() { 1400 } else { 110 };
+    let clouds = if em.thorough() { 1400 } else { 170 };
     for _ in 0..clouds {
-        let (rows, d, lattice, tag) = gen_cloud(rng, em.thorough());
-        let met = gen_metric(rng, lattice);
-        let malformed = if rng.chance(1, 7) { 1 + rng.below(3) as u8 } else { 0 };
-        if rng.chance(1, 4) {
+        let is32 = rng.chance(1, 4);
+        let (rows, d, lattice, tag) = gen_cloud(rng, em.thorough(), is32);
+        let met = gen_metric(rng, lattice, tag);
+        // one defect most of the time, two or three coinciding defects in a quarter of the malformed stream
+        let malformed = if rng.chance(1, 7) {
+            if rng.chance(1, 4) { *rng.pick(&[3u8, 5, 6, 7]) } else { 1 << rng.below(3) }
+        } else {
+            0
+        };
+        if is32 {
             scenario::<f32>(em, rng, &rows, d, lattice, tag, met, malformed);
         } else {
             scenario::<f64>(em, rng, &rows, d, lattice, tag, met, malformed);
         }
     }
+    edge_stream(em, rng);
 }
